@@ -827,4 +827,26 @@ example : ∃ s : ASt, AValid s ∧ s.pairs ≠ [] :=
   ⟨{ pairs := [("a|b", { erc20 := "a", denoms := ["b"], enabled := true })] },
    by intro x hx; simp at hx; subst hx; simp, by simp⟩
 
+/-! ### app life cycle -/
+
+/-- `SetEVMCode` is total whatever account is stored at the address. -/
+theorem setEVMCode_total (e : Option AccKind) : (setEVMCode e).isPanic = false := rfl
+
+/-- **start-up is total for every valid genesis account table at the addresses the app writes**: whatever kind of account
+a validated genesis puts at a system-contract address, a lazily used module address or anywhere else, neither InitChain nor the
+v0.2 upgrade panics; at a module address used at start-up the same holds for the (only sensible) module account. -/
+theorem startup_total_every_account_kind (k : AccKind) (a : AddrClass) (_hv : lcValidate k a = .ok ())
+    (hm : a = .moduleInit → k = .module) : (lcInitChain k a).isPanic = false ∧ (lcUpgrade k a).isPanic = false := by
+  cases a <;> cases k <;> simp_all [lcInitChain, lcUpgrade, setEVMCode]
+
+/-- the excluded case is cosmos-sdk's own panic, not teleport code. -/
+theorem lifecycle_only_sdk_panic (k : AccKind) (a : AddrClass) (h : (lcInitChain k a).isPanic = true) :
+    a = .moduleInit ∧ k ≠ .module := by
+  cases a <;> cases k <;> simp_all [lcInitChain, setEVMCode]
+
+/-- re-using the stored account under the unchecked assertion is NOT total: a validated genesis with a vesting account at a
+system-contract address panics. -/
+theorem reuse_variant_panics : ∃ k, lcValidate k .sysContract = .ok () ∧ (setEVMCodeReuse (some k)).isPanic = true :=
+  ⟨.delayedVesting, by decide, by decide⟩
+
 end TM.NoPanic
